@@ -23,6 +23,18 @@ from c16 import fv, fvs, fints, parse_vec, parse_mat, near, vec_near, quiet, nod
 TOL = 1e-10
 
 
+def alpha_near(a, b):
+    """surpluses / densities of two runs that differ only by rounding: cached matrix entries were computed at another
+    position (relative differences ~1e-9 by cancellation in the antiderivatives), amplified by the condition of the system
+    and by the normalisation; 1e-5 of the scale is allowed"""
+    a = np.asarray(a, dtype=float).ravel()
+    b = np.asarray(b, dtype=float).ravel()
+    if a.shape != b.shape:
+        return False
+    scale = max(1.0, float(np.max(np.abs(b))) if b.size else 1.0)
+    return bool(np.all(np.abs(a - b) <= 1e-5 * scale))
+
+
 def rec_op_class():
     from sparseSpACE.GridOperation import DensityEstimation
 
@@ -241,7 +253,7 @@ def run_history(ctx, drv, case):
                 ctx.count("ambiguous_float_history_diverged")
                 break
             maxN = max([maxN] + [len(v) for v in so.values()])
-            bad = [key for key in so if not vec_near(so[key], sf[key], TOL)]
+            bad = [key for key in so if not alpha_near(so[key], sf[key])]
             if bad:
                 key = bad[0]
                 cause = "unexplained"
@@ -263,11 +275,23 @@ def run_history(ctx, drv, case):
                 diverged = True
                 break
         if not diverged:
+            # every single evaluation: right-hand sides identical, matrices equal up to the rounding of the entries
+            ev_on = [e for e in on[0].rec if e[0] in ("R", "B")]
+            ev_off = [e for e in off[0].rec if e[0] in ("R", "B")]
+            for e1, e2 in zip(ev_on, ev_off):
+                if e1[0] == "B" and not vec_near(e1[1], e2[1], 1e-12):
+                    ck.viol("reuse-changes-rhs", dict(tags, cause="unexplained", grid_ge_200=len(e1[1]) >= 200), case,
+                            {"max_abs_diff_rhs": float(np.max(np.abs(e1[1] - e2[1])))})
+                    break
+                if e1[0] == "R" and (np.shape(e1[3]) != np.shape(e2[3]) or
+                                     not all(c16.near_entry(x, y) for x, y in zip(np.ravel(e1[3]), np.ravel(e2[3])))):
+                    ck.viol("reuse-changes-matrix", tags, case, {"stripes": str(e1[1])[:300]})
+                    break
             if len(posts_on) != len(posts_off):
                 ck.viol("reuse-changes-history-length", tags, case, {"on": len(posts_on), "off": len(posts_off)})
             if on[2] != off[2]:
                 ck.viol("reuse-changes-scheme", tags, case, {"on": str(on[2])[:300], "off": str(off[2])[:300]})
-            elif not vec_near(on[3][:, 0], off[3][:, 0], TOL):
+            elif not alpha_near(on[3][:, 0], off[3][:, 0]):
                 ck.viol("reuse-changes-interpolated-density", tags, case,
                         {"max_abs_diff": float(np.max(np.abs(on[3] - off[3])))})
         # correspondence: both runs on the model
@@ -348,7 +372,7 @@ def run_twostep(ctx, drv, case):
             br = b_ref(st, data, signs)
             if not vec_near(b_off[step], br, TOL):
                 ck.viol("rhs-large-grid-is-sample-mean", dict(tags, reuse=False), dict(case, step=step), {})
-            if not vec_near(b_on[step], b_off[step], TOL) or not vec_near(s_on[step], s_off[step], TOL):
+            if not vec_near(b_on[step], b_off[step], 1e-12) or not alpha_near(s_on[step], s_off[step]):
                 cause = explain_b_difference(ck, drv, case, on, st, b_on[step], br) or "unexplained"
                 nbad = sum(1 for i in range(len(br)) if not near(b_on[step][i], br[i], TOL))
                 ck.viol("reuse-changes-rhs", dict(tags, cause=cause, grid_ge_200=len(br) >= 200), dict(case, step=step),
@@ -396,10 +420,10 @@ def run_uniform(ctx, drv, case):
             ck.viol("reuse-changes-scheme", tags, case, {})
         else:
             for k in res[0][0]:
-                if not vec_near(res[0][0][k], res[1][0][k], TOL):
+                if not alpha_near(res[0][0][k], res[1][0][k]):
                     ck.viol("reuse-changes-surpluses", dict(tags, cause="unexplained", grid_ge_200=len(res[0][0][k]) >= 200), case, {"levelvector": list(k)})
                     break
-            if not vec_near(res[0][2][:, 0], res[1][2][:, 0], TOL):
+            if not alpha_near(res[0][2][:, 0], res[1][2][:, 0]):
                 ck.viol("reuse-changes-interpolated-density", tags, case, {})
         ctx.count("uniform_schemes")
         if any(len(v) >= 200 for v in res[0][0].values()):
